@@ -6,15 +6,16 @@ From PV Require Import Bytes C12_gen C12 C12_proofs.
 Open Scope Z_scope.
 
 (* every type number 0..255 that has no handler in the current role / auth state (any of the
-   32 combinations of server_mode, authenticated, installed auth handler, transport class),
-   after the handshake, is answered with UNIMPLEMENTED carrying that packet's sequence number,
+   64 combinations of server_mode, authenticated, installed auth handler, transport class, and
+   whether a re-key started by this side is in progress - own KEXINIT sent, clear_to_send cleared),
+   after the handshake; `receive` = Packetizer.read_message's logging stage, then the run-loop ladder; is answered with UNIMPLEMENTED carrying that packet's sequence number,
    and the transport keeps running.  Finite sweep over the generated tables, bound in the statement. *)
 Theorem C12_unimplemented :
   forall (st : state) (p sq : Z),
     expected st = [] -> 0 <= p < 256 -> 0 <= sq < 2 ^ 32 ->
     unhandled st p = true -> p <> MSG_UNIMPLEMENTED ->
-    dispatch st p sq = Fallback (Some (MSG_UNIMPLEMENTED :: be_encode 4 sq)) /\
-    alive (dispatch st p sq) = true.
+    receive st p sq = Fallback (Some (MSG_UNIMPLEMENTED :: be_encode 4 sq)) /\
+    alive (receive st p sq) = true.
 Proof. exact unimplemented. Qed.
 Print Assumptions C12_unimplemented.
 
@@ -29,8 +30,8 @@ Print Assumptions C12_reply_carries_seqno.
 Theorem C12_no_reply_to_3 :
   forall (st : state) (sq : Z),
     (expected st = [] ->
-       dispatch st MSG_UNIMPLEMENTED sq = Fallback None /\ alive (dispatch st MSG_UNIMPLEMENTED sq) = true) /\
-    (forall m, dispatch st MSG_UNIMPLEMENTED sq <> Fallback (Some m)).
+       receive st MSG_UNIMPLEMENTED sq = Fallback None /\ alive (receive st MSG_UNIMPLEMENTED sq) = true) /\
+    (forall m, receive st MSG_UNIMPLEMENTED sq <> Fallback (Some m)).
 Proof. intros st sq. split; [exact (no_reply_to_unimplemented st sq) | exact (never_answers_unimplemented st sq)]. Qed.
 Print Assumptions C12_no_reply_to_3.
 
@@ -48,21 +49,21 @@ Print Assumptions C12_stream.
    produces UNIMPLEMENTED *)
 Theorem C12_handled_not_fallback :
   forall (st : state) (p sq : Z) rep,
-    expected st = [] -> unhandled st p = false -> dispatch st p sq <> Fallback rep.
+    expected st = [] -> unhandled st p = false -> receive st p sq <> Fallback rep.
 Proof. exact handled_not_fallback. Qed.
 Print Assumptions C12_handled_not_fallback.
 
 (* the defect that was repaired (fixes/C12-msg-names-keyerror.diff): with `MSG_NAMES[ptype]`
    some unhandled type kills the transport with KeyError in every state *)
 Theorem C12_v0_refuted :
-  forall sm au a s sq,
-    exists p, 0 <= p < 256 /\ unhandled (mkState sm au a s []) p = true /\ fallback_v0 p sq = Die KeyErr.
+  forall sm au a s rk sq,
+    exists p, 0 <= p < 256 /\ unhandled (mkState sm au a s rk []) p = true /\ fallback_v0 p sq = Die KeyErr.
 Proof. exact v0_dies. Qed.
 Print Assumptions C12_v0_refuted.
 
 (* non-vacuity: in every state there are unhandled type numbers, including ones without a
    debug name (the ones the test suite never sends) *)
 Example C12_example :
-  forall sm au a s,
-    exists p, 0 <= p < 256 /\ unhandled (mkState sm au a s []) p = true /\ mem p msg_names = false.
+  forall sm au a s rk,
+    exists p, 0 <= p < 256 /\ unhandled (mkState sm au a s rk []) p = true /\ mem p msg_names = false.
 Proof. exact unnamed_unhandled_exists. Qed.
